@@ -149,7 +149,7 @@ SPEC = {
              'Non-trivial: >=1 gate clause and both a satisfiable and an unsatisfiable row; distinct by '
              'hash of netlist + selection.'),
     'assumptions': ['own DPLL (vlib/sat.py) decides CNF + fixed inputs; z3-backed pysat stand-in used only for is_circuit_satisfiable, its models are re-checked'],
-    'subs': [Sub('tseytin', cases, check_tseytin, {'quick': 2500, 'thorough': 40000})],
+    'subs': [Sub('tseytin', cases, check_tseytin, {'quick': 2500, 'thorough': 200000})],
     'required_classes': {'tseytin': ['nary_xor', 'tautological_top', 'sel:sub', 'sel:empty', 'LR_gate',
                                      'constant', 'cmp_gate', 'dup_operand']},
 }
